@@ -350,15 +350,23 @@ func (w *World) ValidatorOp() {
 		} else {
 			nv.Status = params.ValidatorOnline
 		}
-		nv.UpdateLastActive(w.Height)
+		// the round varies (same and different byte lengths of its compact encoding: 100..399)
+		la := w.Height + uint64(r.Intn(300))
+		nv.UpdateLastActive(la)
 		m := old.MainAddress()
-		w.log("status %x -> %d", m[:4], nv.Status)
+		w.log("status %x -> %d lastActive %d", m[:4], nv.Status, la)
 		st.UpdateValidator(nv, old)
 	case 5: // distributeRewards
 		old := pick()
 		nv := old.PartialCopy()
 		rw := big.NewInt(int64(r.Intn(1 << 40)))
 		nv.AddTotalRewards(rw)
+		if r.Intn(2) == 0 {
+			// rewardsToPool: the proposer of the block is also marked active at this round
+			la := w.Height + uint64(r.Intn(300))
+			nv.UpdateLastActive(la)
+			w.Ops = append(w.Ops, fmt.Sprintf("  (proposer: lastActive %d)", la))
+		}
 		m := old.MainAddress()
 		w.log("reward %x %v", m[:4], rw)
 		st.UpdateValidator(nv, old)
